@@ -6,13 +6,20 @@ import sys
 import vlib
 
 from c03_blocks import BLOCKS, coq_case, run_case, oracle_case, classify_case, nontrivial_case, key_case
+import c03_blocks
+import c03_gen
+import c03_multi
 from c03_gen import generate_cases
+
+c03_blocks.register(c03_multi.Multi())
+c03_blocks.register(c03_multi.NetMulti())
+c03_gen.GENERATORS.append(c03_multi.gen_multi)
 
 
 class C03(vlib.Driver):
     pid = "C03"
-    preamble = ("From Coq Require Import ZArith String.\n"
-                "From AgileV Require Import C03.Model C03.ModelCnn C03.Check.\n"
+    preamble = ("From Coq Require Import List ZArith String. Import ListNotations.\n"
+                "From AgileV Require Import C03.Model C03.ModelCnn C03.ModelNet C03.ModelMulti C03.Check C03.CheckMulti.\n"
                 "Open Scope Z_scope. Open Scope string_scope.\nDefinition length {A} := @List.length A.")
     rule = ("one case = one building block / network, a start architecture, a chain of advertised mutation calls "
             "(explicit arguments or scripted numpy draws). Exhaustive BFS over the architectures reachable for small "
@@ -51,7 +58,7 @@ class C03(vlib.Driver):
         return classify_case(case, obs)
 
     def signature_of_case(self, case):
-        return f"{case['block']}:{'/'.join(s['m'] for s in case['steps'][:3])}"
+        return f"{case['block']}:{case.get('net', '')}:{case.get('obs', '')}:{'/'.join(s['m'] for s in case['steps'][:3])}"
 
     def neighbours(self, case, rng):
         # same start, each single step on its own; then prefixes
